@@ -36,7 +36,8 @@ def run(tier, seed, replay=None):
         json.dump(chosen, f)
     cli = build_cli()
     trace = os.path.join(wd, "trace.ndjson")
-    info = harness(["c19", "--out", trace, "--scen", sfile, "--bin", cli, "--dir", os.path.join(wd, "run"), "--seed", seed],
+    info = harness(["c19", "--out", trace, "--scen", sfile, "--bin", cli, "--dir", os.path.join(wd, "run"), "--seed", seed,
+                    "--long_roundtrips", 6000 if tier == "thorough" else 600],
                    timeout=3000)
     n = info["events"]
     events = read_trace(trace)
@@ -59,6 +60,7 @@ def run(tier, seed, replay=None):
     for idx in bad:
         e = events[idx - 1]
         what = ("parameter-file round trip did not reproduce byte-identical output" if e["ev"] == "rt" else
+                "without dates the tool did not compute exactly the machine's local date" if e["ev"] == "today" else
                 "CLI run ended differently from the specification's behaviour for its scenario (exit status, files, terminal output) or its output is not the library's result")
         rep.violation(what, e, {"event_index": idx})
     return rep.finish()
